@@ -336,6 +336,32 @@ def run(ck, prog, tier, load):
         bad = [x for x in data_rets if x in r]
         ck.ob("C15-f.partial-delimiter-waits", "read_stream", bool(edges_where(rs, enough)) and not bad, rs, bad[0] if bad else tb,
               "with a delimiter candidate at the start of the buffer, field data is emitted only after the buffer was found long enough to compare the whole delimiter (else need-more / Incomplete)")
+    # the scan resumes at the byte after a CR that did not start a delimiter: a larger step skips a byte that may itself be
+    # the CR of the real delimiter (`\r\r\n--boundary`), which is then delivered as field content
+    finds = [(bb, t) for bb, t in rs.calls(r"memmem::find$|memchr::memchr$")]
+    POS = set()
+    for bb, t in finds:
+        for x in walk(rs.op_expr(t["args"][0], 6)):
+            if is_agg(x, r"RangeFrom$"):
+                POS |= set(o[1] for o in x[3] if o[0] in ("var", "phi") and rs.lty(o[1]) == "usize")
+    ck.anchor("C15-f", len(POS), 1, "scan position (start of the slice searched for CR) in read_stream")
+    for l in sorted(POS):
+        for d in rs.defs().get(l, []):
+            e = rs.def_expr(d, 6)
+            if e[0] == "const":
+                continue
+            top = e[1] if e[0] == "place" else e
+            step = top[3][2] if top[0] == "bin" and top[1] in ("Add", "AddWithOverflow") and top[3][0] == "const" else None
+            def from_find(x):
+                if e_calls(x, r"memmem::find$|memchr::memchr$"):
+                    return True
+                for y in walk(x):
+                    if y[0] in ("var", "phi") and any(d2[0] == "call" and rx(r"memmem::find$|memchr::memchr$").search(cname(d2[2])) for d2 in rs.defs().get(y[1], [])):
+                        return True
+                return False
+            found = top[0] == "bin" and from_find(top[2])
+            ck.ob("C15-f.scan-resumes-at-next-byte", "read_stream|step=%s" % step, step == 1 and bool(found), rs, d[1],
+                  "after a CR that does not start a delimiter the search resumes at exactly the next byte (CR position + 1): %s" % short(e, 4))
     # the head check must run for every buffer length in which the scan loop can step over a look-alike at position 0
     head_min = None
     for a in rs.live:
